@@ -353,6 +353,11 @@ func (c06) Run(t *tape.Tape, tier Tier) *Result {
 		congruence = true
 	}
 	ts := newTaint(t, tier, res, alpha, true, "C06")
+	// fault: between two renderings of the same error, an unrelated
+	// formatting call fails half-way (its method panics after printing part of
+	// its output; fmt/redact swallow the panic): the second rendering must
+	// equal the first
+	poisoned := t.Bool(1, 6)
 	var unsafe []gen.Token
 	for _, tok := range ts.tokens {
 		if !tok.Safe && !tok.Neutral {
@@ -375,6 +380,19 @@ func (c06) Run(t *tape.Tape, tier Tier) *Result {
 				continue
 			}
 			ts.sim.Logf("red %s %d", verb, len(r))
+			if poisoned {
+				plain1 := obs.Fmt(verb, e)
+				poison(t)
+				ts.sim.Stats.Faults["formatter-panic"]++
+				if r2 := obs.Red(verb, e); r2 != r {
+					res.add(Violation{Prop: "C06", Oracle: "rendering-after-failed-call:" + verb, Culprit: "redactable", Expected: short(fmt.Sprintf("%q", r)), Observed: short(fmt.Sprintf("%q", r2)), Where: where})
+				}
+				poison(t)
+				ts.sim.Stats.Faults["formatter-panic"]++
+				if plain2 := obs.Fmt(verb, e); plain2 != plain1 {
+					res.add(Violation{Prop: "C06", Oracle: "rendering-after-failed-call:" + verb, Culprit: "plain", Expected: short(fmt.Sprintf("%q", plain1)), Observed: short(fmt.Sprintf("%q", plain2)), Where: where})
+				}
+			}
 			if prob := markerProblem(r); prob != "" {
 				res.add(Violation{Prop: "C06", Oracle: "well-formed:" + verb, Culprit: markerCulprit(r, prob), Expected: "balanced, non-nested markers on every line", Observed: prob + ": " + short(fmt.Sprintf("%q", r)), Where: where})
 			}
@@ -462,6 +480,22 @@ func (c12) Run(t *tape.Tape, tier Tier) *Result {
 	}
 	// type names and innermost stack functions of the visible layers at the origin
 	origin := obs.Tree(ts.e0, true)
+	// texts of well-known sentinel leaves (not under a Mark reference); those
+	// the library shows unredacted in the origin's report are "declared safe"
+	var sentinelTexts, safeSentinels []string
+	var walkS func(n *gen.Node, underMark bool)
+	walkS = func(n *gen.Node, underMark bool) {
+		if n.K == gen.LSentinel && !underMark {
+			sentinelTexts = append(sentinelTexts, gen.Sentinels[n.N[0]].Error())
+		}
+		for _, k := range n.Kids {
+			walkS(k, underMark)
+		}
+		for _, h := range n.Hid {
+			walkS(h, underMark || n.K == gen.WMark)
+		}
+	}
+	walkS(ts.spec, false)
 	ts.run(res, "C12", func(e error, where string, p *world.Process, wire []byte) {
 		// safe details are read first, the report (which formats the error) afterwards
 		all, _ := obs.AllSafeDetails(e)
@@ -474,6 +508,20 @@ func (c12) Run(t *tape.Tape, tier Tier) *Result {
 			hay += "\x1e" + k + "=" + v
 		}
 		ts.sim.Logf("report %d", len(hay))
+		if where == "origin (local)" {
+			for _, tx := range sentinelTexts {
+				if strings.Contains(hay, tx) {
+					safeSentinels = append(safeSentinels, tx)
+				}
+			}
+			res.count("safe-sentinel-texts", len(safeSentinels))
+		} else {
+			for _, tx := range safeSentinels {
+				if !strings.Contains(hay, tx) {
+					res.add(Violation{Prop: "C12", Oracle: "sentinel-text-retained", Culprit: tx, Expected: "sentinel text (unredacted in the origin's report) in report or safe details", Observed: "absent", Where: where})
+				}
+			}
+		}
 		for _, tok := range safe {
 			if !strings.Contains(hay, tok.Tok) {
 				res.add(Violation{Prop: "C12", Oracle: "safe-token-retained", Culprit: kindOfToken(tok) + hiddenSuffix(tok), Expected: "token " + tok.Tok + " in report or safe details", Observed: "absent", Where: where})
